@@ -260,8 +260,67 @@ func IsNilPtr(a any) bool {
 	return false
 }
 
-// Reach lists values implementing the named interface reachable from root (engine only).
-func Reach(root any, ifaceName string) []any { return nil }
+// Reach lists the pointers stored in root's fields (transitively) whose type implements the
+// interface given as a typed nil pointer, e.g. Reach(tree, (*ast.Node)(nil)).
+func Reach(root any, ifacePtr any) []any {
+	it := reflect.TypeOf(ifacePtr).Elem()
+	var out []any
+	seen := map[uintptr]bool{}
+	var walk func(v reflect.Value)
+	walk = func(v reflect.Value) {
+		if !v.IsValid() {
+			return
+		}
+		switch v.Kind() {
+		case reflect.Interface:
+			if !v.IsNil() {
+				walk(v.Elem())
+			}
+		case reflect.Ptr:
+			if v.IsNil() {
+				return
+			}
+			if seen[v.Pointer()] {
+				return
+			}
+			seen[v.Pointer()] = true
+			if v.Type().Implements(it) && v.CanInterface() {
+				out = append(out, v.Interface())
+			} else if v.Type().Implements(it) {
+				out = append(out, reflect.NewAt(v.Type().Elem(), v.UnsafePointer()).Interface())
+			}
+			walk(v.Elem())
+		case reflect.Struct:
+			for k := 0; k < v.NumField(); k++ {
+				walk(v.Field(k))
+			}
+		case reflect.Slice, reflect.Array:
+			for k := 0; k < v.Len(); k++ {
+				walk(v.Index(k))
+			}
+		case reflect.Map:
+			it := v.MapRange()
+			for it.Next() {
+				walk(it.Value())
+			}
+		}
+	}
+	walk(reflect.ValueOf(root))
+	return out
+}
+
+var fillProtos []reflect.Value
+
+// FillOneOf fills one top-level field of *p; interface fields receive a fresh clone of the
+// first prototype (a *T) implementing them, slices get two elements.
+func FillOneOf(p any, protos ...any) int {
+	fillProtos = nil
+	for _, x := range protos {
+		fillProtos = append(fillProtos, reflect.ValueOf(x))
+	}
+	defer func() { fillProtos = nil }()
+	return FillOne(p, nil)
+}
 
 // Fill fills *p with arbitrary content, same tape order as the engine.
 func Fill(p any, depth int, sentinel ...any) {
@@ -285,6 +344,20 @@ func setField(f reflect.Value, g reflect.Value) {
 
 func genFull(t reflect.Type, d int) reflect.Value {
 	out := reflect.New(t).Elem()
+	if len(fillProtos) > 0 && t.Kind() == reflect.Interface {
+		if t.NumMethod() == 0 {
+			return out
+		}
+		for _, p := range fillProtos {
+			if p.Type().Implements(t) {
+				c := reflect.New(p.Type().Elem())
+				c.Elem().Set(p.Elem())
+				out.Set(c)
+				return out
+			}
+		}
+		return out
+	}
 	switch t.Kind() {
 	case reflect.Bool:
 		out.SetBool(next()&1 != 0)
@@ -305,7 +378,14 @@ func genFull(t reflect.Type, d int) reflect.Value {
 			setField(out.Field(k), genFull(t.Field(k).Type, d))
 		}
 	case reflect.Slice:
-		if d > 0 {
+		if d > 0 && len(fillProtos) > 0 && t.Elem().Kind() == reflect.Ptr && d-1 <= 0 {
+			// no nil elements in slices of pointers
+		} else if d > 0 && len(fillProtos) > 0 {
+			s := reflect.MakeSlice(t, 2, 2)
+			s.Index(0).Set(genFull(t.Elem(), d-1))
+			s.Index(1).Set(genFull(t.Elem(), d-1))
+			out.Set(s)
+		} else if d > 0 {
 			s := reflect.MakeSlice(t, 1, 1)
 			s.Index(0).Set(genFull(t.Elem(), d-1))
 			out.Set(s)
@@ -345,7 +425,11 @@ func FillOne(p any, sentinel any) int {
 		return -1
 	}
 	k := int(uint16(next()))
-	setField(v.Field(k), genFull(v.Type().Field(k).Type, 2))
+	d := 2
+	if len(fillProtos) > 0 {
+		d = 3
+	}
+	setField(v.Field(k), genFull(v.Type().Field(k).Type, d))
 	return k
 }
 
